@@ -64,7 +64,7 @@ def seeded_entries(pid):
                 meta = json.load(f)
         except (OSError, ValueError):
             meta = {}
-        if meta.get("static_reach") is False:
+        if meta.get("static_reach") is False or meta.get("stale_after"):
             continue
         kind = meta.get("kind_override", kind)  # kept for the record: a breaking change no sound static rule decides (DESIGN.md 11.9)
         out.append({"id": "seed-" + name, "prop": pid, "rule": None, "kind": kind, "edits": [], "patch": patch})
